@@ -694,8 +694,19 @@ func (s *Sim) checkRecheck(t *Trigger, c *Client, rid string) {
 	}
 	// C06.b on the last verdict
 	last := after[len(after)-1]
+	isGrant := func(q *Req) bool {
+		return strings.HasPrefix(q.Outcome, "acc:") && strings.Contains(q.Outcome, `"get":true`)
+	}
+	for _, q := range after {
+		if q != last && isGrant(q) != isGrant(last) && (!q.Delivered || q.DlvSeq > last.Seq) {
+			// two checks for the same subscription in flight at once with different
+			// verdicts: which one the gateway acts on last is not determined
+			s.stat("exempt.overlapping_rechecks", 1)
+			return
+		}
+	}
 	s.stat("oracle.C06.b", 1)
-	granted := strings.HasPrefix(last.Outcome, "acc:") && strings.Contains(last.Outcome, `"get":true`)
+	granted := isGrant(last)
 	if !granted {
 		at, revoked := c.Revoked[rid]
 		if !revoked || at < last.DlvStep {
